@@ -253,3 +253,32 @@ class SlowLoad:
 
 def ret_slowload(delay):
     return SlowLoad(delay)
+
+
+def gated_echo(x, gate):
+    """waits until the gate file exists, then answers"""
+    end = time.time() + 20
+    while not os.path.exists(gate) and time.time() < end:
+        time.sleep(0.002)
+    return ('r', x)
+
+
+def echo_and_mutate_deep(*args, **kwargs):
+    """like echo_and_mutate but also mutates nested lists/dicts (depth <= 3)"""
+    import copy
+    snap = (copy.deepcopy(args), copy.deepcopy(kwargs))
+
+    def mut(a, d):
+        if isinstance(a, list):
+            for x in list(a):
+                if d < 3:
+                    mut(x, d + 1)
+            a.append('MUT')
+        elif isinstance(a, dict):
+            for x in list(a.values()):
+                if d < 3:
+                    mut(x, d + 1)
+            a['MUT'] = True
+    for a in list(args) + list(kwargs.values()):
+        mut(a, 0)
+    return snap
